@@ -28,6 +28,15 @@ def classify_crash(rc, stderr_text):
         return "asan:%s%s" % (m.group(1), ":" + topfn if topfn else ""), (m.group(0) + (" in " + top if top else ""))[:400]
     if "AddressSanitizer:DEADLYSIGNAL" in err or "AddressSanitizer" in err[-3000:]:
         return "asan:deadly-signal%s" % (":" + topfn if topfn else ""), ("AddressSanitizer deadly signal" + (" in " + top if top else ""))[:400]
+    hg = re.search(r"==\d+== (Possible data race during (read|write)[^\n]*|Thread #\d+[^\n]*(lock|unlock|mutex|rwlock|cond)[^\n]*|[^\n]*lock order[^\n]*)", err)
+    if hg:
+        kind = "data-race" if hg.group(1).startswith("Possible data race") else "lock-misuse"
+        fr = re.findall(r"==\d+==\s+(?:at|by) 0x[0-9A-F]+: (.+?) \((\S+?):(\d+)\)", err[hg.start():])
+        where = ""
+        for fn, f, ln in fr:
+            if f.endswith((".cpp", ".h", ".hpp")) and any(t in fn for t in ("Pomerol::", "pMPI::")):
+                where = "::".join(re.sub(r"\(.*", "", fn).split("::")[-2:]).replace("Pomerol::", ""); break
+        return "helgrind:%s%s" % (kind, ":" + where if where else ""), hg.group(1)[:200] + (" in " + where if where else "")
     vg = re.search(r"==\d+== (Invalid (read|write)[^\n]*|Conditional jump or move depends on uninitialised value[^\n]*|Use of uninitialised value[^\n]*|Syscall param[^\n]*|Invalid free[^\n]*|Mismatched free[^\n]*|Source and destination overlap[^\n]*)", err)
     if rc == 88 or vg:
         kind = (vg.group(1).split(" of size")[0] if vg else "error").strip().replace(" ", "-").lower()[:50]
@@ -80,6 +89,12 @@ class Worker:
 
 
 VALGRIND = ["valgrind", "-q", "--error-exitcode=88", "--exit-on-first-error=yes", "--undef-value-errors=yes", "--num-callers=25", "--max-stackframe=4000000"]
+# binary-level happens-before race detection over the real-thread OpenMP teams of the "thr" build (no compiler instrumentation)
+HELGRIND = ["valgrind", "-q", "--tool=helgrind", "--error-exitcode=88", "--exit-on-first-error=yes", "--num-callers=25", "--history-level=approx", "--max-stackframe=4000000"]
+
+def wrapper_for(v):
+    """part["valgrind"]: True = memcheck, "helgrind" = helgrind, falsy = none"""
+    return HELGRIND if v == "helgrind" else (VALGRIND if v else None)
 
 def run_batch(exe, base_seed, nruns, time_limit, cfg="", nworkers=None, extra=None, on_result=None, wrapper=None, keep=True):
     """Runs seeds base_seed .. base_seed+nruns-1 (as many as fit in time_limit) over a pool of in-process-looping workers.
